@@ -11,4 +11,4 @@ if status == 'fixed':
     e["line"] = f"fixed: property={prop} {commit} {what}"
 d['findings'].append(e)
 json.dump(d, open(p, 'w'), indent=1)
-print(e["line"])
+print(e.get("line", "open: " + what))
